@@ -88,6 +88,37 @@ pub fn cfb_decrypt(id: u8, key: &[u8], iv: &[u8], data: &mut [u8]) {
     })
 }
 
+/// Symmetrically Encrypted Data packet body (tag 9, RFC 4880 §5.7 / §13.9): OpenPGP CFB with the
+/// resynchronisation step after the bs+2 prefix octets; no integrity protection.
+pub fn sed_encrypt(id: u8, key: &[u8], random_prefix: &[u8], plaintext: &[u8]) -> Vec<u8> {
+    let (bs, _) = sym_params(id).expect("cipher");
+    assert_eq!(random_prefix.len(), bs);
+    let mut out = Vec::with_capacity(bs + 2 + plaintext.len());
+    with_block_encrypt(id, key, |enc| {
+        // steps 1-4: first block
+        let mut fr = vec![0u8; bs];
+        enc(&mut fr);
+        let c1: Vec<u8> = (0..bs).map(|i| fr[i] ^ random_prefix[i]).collect();
+        out.extend_from_slice(&c1);
+        // steps 5-7: the two check octets
+        let mut fr2 = c1.clone();
+        enc(&mut fr2);
+        out.push(fr2[0] ^ random_prefix[bs - 2]);
+        out.push(fr2[1] ^ random_prefix[bs - 1]);
+        // step 8: resynchronise on ciphertext octets 3..bs+2
+        let mut fb = out[2..bs + 2].to_vec();
+        for chunk in plaintext.chunks(bs) {
+            enc(&mut fb);
+            let ct: Vec<u8> = chunk.iter().enumerate().map(|(i, b)| b ^ fb[i]).collect();
+            out.extend_from_slice(&ct);
+            if ct.len() == bs {
+                fb = ct;
+            }
+        }
+    });
+    out
+}
+
 /// SEIPD v1 body after the version octet (RFC 9580 §5.13.1): CFB with zero IV over
 /// prefix(bs random + 2 repeated) || plaintext || D3 14 || SHA1(prefix || plaintext || D3 14).
 pub fn seipdv1_encrypt(id: u8, key: &[u8], random_prefix: &[u8], plaintext: &[u8]) -> Vec<u8> {
